@@ -309,20 +309,20 @@ def check_constructs(ctx, fi, vdesc, trace, mach):
                            "row id must not become a property"), nontrivial_key=("ctor", cls))
 
 
-def r_lists(ctx: Ctx, model, mach):
+def r_lists(ctx: Ctx, model, mach, prop="C08", rule="D-read", kinds=("adsorbate", "material")):
     """repeated property rows of one type (what the writer stores for a list-valued property) come back as one list, in row order:
     interpreted on the readers with a pinned two-row result of the property table"""
     ctx.rule("D-read(lists): two stored rows (type T, values V1, V2) of one item reach the constructor as T=[V1, V2]; a single row as the "
              "bare value")
     I = mach.I
-    for kind in ("adsorbate", "material"):
+    for kind in kinds:
         r = model.func(f"{SQLITE}.{kind}s_from_db")
         ptab = f"{kind}_properties"
-        for nrows, want in ((2, ["V1", "V2"]), (1, "V1")):
+        for nrows, want in ((4, ["V1", "V2", "V3", "V4"]), (3, ["V1", "V2", "V3"]), (2, ["V1", "V2"]), (1, "V1")):
             mach.multi_rows = {ptab: nrows}
             saved = dict(mach.cell_values)
             mach.cell_values[(ptab, "type")] = "TYPEX"
-            mach.cell_values[(ptab, "value")] = ["V1", "V2"]
+            mach.cell_values[(ptab, "value")] = ["V1", "V2", "V3", "V4"]
             try:
                 seen = []
                 for oc, trace in mach.explore(lambda I: I.call_func(r, [], {"db_path": "USER.db", "verbose": False}, None)):
@@ -334,10 +334,58 @@ def r_lists(ctx: Ctx, model, mach):
                 mach.cell_values.clear()
                 mach.cell_values.update(saved)
             ok = bool(seen) and all(v == want for v in seen)
-            ctx.ob(ok, Finding("C08.D-read", r.where, f"{kind}s_from_db|list-properties-not-regrouped" if nrows == 2 else f"{kind}s_from_db|single-row-property",
-                               f"{kind}s_from_db with {nrows} stored row(s) of one property type (values V1, V2) hands the constructor {seen[:2] or 'nothing'}; "
-                               f"required {want!r}" + (": list-valued properties do not come back" if nrows == 2 else "")),
+            ctx.ob(ok, Finding(f"{prop}.{rule}", r.where, f"{kind}s_from_db|list-properties-not-regrouped|rows={nrows}" if nrows >= 2 else f"{kind}s_from_db|single-row-property",
+                               f"{kind}s_from_db with {nrows} stored row(s) of one property type (values V1, V2, ...) hands the constructor {seen[:2] or 'nothing'}; "
+                               f"required {want!r}" + (": list-valued properties do not come back" if nrows >= 2 else "")),
                    nontrivial_key=("lists", kind, nrows))
+
+
+def r_pairing(ctx: Ctx, model, mach):
+    """several isotherms in one retrieval: each constructed isotherm gets the property rows and the data / model row of its OWN id"""
+    ctx.rule("D-read(pairing): isotherms_from_db on two stored isotherms (ids I1, I2) builds isotherm k from the property row and the "
+             "data / model row whose iso_id is Ik - interpreted with pinned two-row results of the three tables")
+    I = mach.I
+    r = model.func(f"{SQLITE}.isotherms_from_db")
+    saved_cells, saved_over, saved_ext = dict(mach.cell_values), dict(I.overrides), dict(I.ext)
+    n = 0
+    try:
+        for iso_type in ("modelisotherm", "pointisotherm"):
+            mach.multi_rows = {"isotherms": 2, "isotherm_properties": 2, "isotherm_data": 2}
+            mach.cell_values.clear()
+            mach.cell_values.update({("isotherms", "id"): ["I1", "I2"], ("isotherms", "iso_type"): iso_type,
+                                     ("isotherm_properties", "iso_id"): ["I1", "I2"], ("isotherm_properties", "type"): "TYPEX",
+                                     ("isotherm_properties", "value"): ["P1", "P2"],
+                                     ("isotherm_data", "iso_id"): ["I1", "I2"], ("isotherm_data", "type"): "model" if iso_type == "modelisotherm" else "pressure",
+                                     ("isotherm_data", "data"): ["D1", "D2"], ("isotherm_data", "dtype"): "float"})
+            I.ext["json.loads"] = lambda I, a, k, n_: Obj(kind="Parsed", label=f"parsed:{a[0]}") if isinstance(a[0], str) else Opaque("parsed")
+            I.overrides["pygaps.modelling.model_from_dict"] = lambda I, fi_, env, n_: Obj(kind="ModelFrom", label="model<" + getattr(next(iter(env.values())), "label", "?") + ">")
+            I.ext["pandas.DataFrame"] = lambda I, a, k, n_: Obj(kind="FrameOf", label="frame<" + ",".join(getattr(v, "label", str(v)) for v in (a[0].values() if a and isinstance(a[0], dict) else [])) + ">")
+            for oc, trace in mach.explore(lambda I: I.call_func(r, [], {"db_path": "USER.db", "verbose": False}, None)):
+                cons = [e for e in trace if e[0] == "construct"]
+                if oc.kind != "ok" or len(cons) != 2:
+                    ctx.ob(False, Finding("C08.D-read", r.where, f"isotherms_from_db|pairing|{iso_type}|outcome",
+                                          f"two stored {iso_type}s: {oc!r}, {len(cons)} isotherm(s) constructed; two required"))
+                    continue
+                n += 1
+                for j, e in enumerate(cons):
+                    kw = e[3]
+                    payload = kw.get("model") if iso_type == "modelisotherm" else kw.get("isotherm_data")
+                    got = (kw.get("TYPEX"), getattr(payload, "label", repr(payload)))
+                    want = (f"P{j + 1}", ("model<parsed:D%d>" if iso_type == "modelisotherm" else "frame<parsed:D%d>") % (j + 1))
+                    ctx.ob(got == want, Finding("C08.D-read", r.where, f"isotherms_from_db|pairing|{iso_type}|isotherm-{j + 1}",
+                                                f"isotherms_from_db over two stored {iso_type}s (ids I1, I2): isotherm {j + 1} is built from property "
+                                                f"{got[0]!r} and {got[1]}; required {want[0]!r} and {want[1]} - the rows of its own id (otherwise every "
+                                                "isotherm after the first comes back with another one's model / data and is unequal to the stored one)"),
+                           nontrivial_key=("pairing", iso_type, j))
+    finally:
+        mach.multi_rows = {}
+        mach.cell_values.clear()
+        mach.cell_values.update(saved_cells)
+        I.overrides.clear()
+        I.overrides.update(saved_over)
+        I.ext.clear()
+        I.ext.update(saved_ext)
+    ctx.floor("two-isotherm retrievals interpreted", n, 2)
 
 
 def r_bool(ctx: Ctx, model, mach):
@@ -429,6 +477,7 @@ def run(ctx: Ctx):
     r_collation(ctx, mach)
     r_paths(ctx, model, mach)
     r_lists(ctx, model, mach)
+    r_pairing(ctx, model, mach)
     r_bool(ctx, model, mach)
     ctx.analysed["tables"] = sorted(mach.tables)
     ctx.extra["exhaustive"] = True
